@@ -7,12 +7,12 @@ out=build/$name
 mkdir -p $out
 LIBFLAGS=("$@"); [ ${#LIBFLAGS[@]} -eq 0 ] && LIBFLAGS=(-O0 -g)
 engine/build_lib.sh $out/lib "${LIBFLAGS[@]}" -DMYTH_VERIF ${EXTRA_LIB_DEFS}
-gcc -O1 -g -fno-omit-frame-pointer -w -I${REPO:-/repo}/include -I${REPO:-/repo}/src -Iengine/mythmc -c engine/mythmc/mythv.c -o $out/mythv.o
-gcc -O0 -g -w -D_GNU_SOURCE -D_XOPEN_SOURCE -I${REPO:-/repo}/include -I${REPO:-/repo}/src -c engine/mythmc/mythv_lib.c -o $out/mythv_lib.o
+gcc -O1 -g -fno-omit-frame-pointer -w -I${REPO:-/repo}/include -I${REPO:-/repo}/src -Iengine/fallback -Iengine/mythmc -c engine/mythmc/mythv.c -o $out/mythv.o
+gcc -O0 -g -w -D_GNU_SOURCE -D_XOPEN_SOURCE -I${REPO:-/repo}/include -I${REPO:-/repo}/src -Iengine/fallback -c engine/mythmc/mythv_lib.c -o $out/mythv_lib.o
 gcc -O1 -g -w -Iengine/mythmc -c engine/mythmc/explore.c -o $out/explore.o
 case "$src" in
-  *.cc|*.cpp) g++ -O0 -g -w -I${REPO:-/repo}/include -I${REPO:-/repo}/src -Iengine/mythmc -Iharness ${HARNESS_FLAGS} -c $src -o $out/harness.o
+  *.cc|*.cpp) g++ -O0 -g -w -I${REPO:-/repo}/include -I${REPO:-/repo}/src -Iengine/fallback -Iengine/mythmc -Iharness ${HARNESS_FLAGS} -c $src -o $out/harness.o
        g++ -o $out/$name $out/harness.o $out/mythv.o $out/mythv_lib.o $out/explore.o $out/lib/*.o ${HARNESS_EXTRA_OBJS} -lpthread -ldl ;;
-  *) gcc -O0 -g -w -I${REPO:-/repo}/include -I${REPO:-/repo}/src -Iengine/mythmc -Iharness ${HARNESS_FLAGS} -c $src -o $out/harness.o
+  *) gcc -O0 -g -w -I${REPO:-/repo}/include -I${REPO:-/repo}/src -Iengine/fallback -Iengine/mythmc -Iharness ${HARNESS_FLAGS} -c $src -o $out/harness.o
      gcc -o $out/$name $out/harness.o $out/mythv.o $out/mythv_lib.o $out/explore.o $out/lib/*.o ${HARNESS_EXTRA_OBJS} -lpthread -ldl ;;
 esac
